@@ -200,8 +200,60 @@ def c06_ds(rng, cfg, value):
     return {"find": find, "data": data, "find_raises": rng.random() < 0.06, "data_raises": rng.random() < 0.06}
 
 
+SPECIALS = ["%3F", "%3f", "+", "%2B", "%2b", "%20", "%23", "#", ";", "%3B", "&", "%26", "=", "%3D", "%25", "%2525",
+            "%253F", "~", "%7E", ":", "@", "!", "$", "'", "(", ")", "*", ",", "|", "^", "[", "]", "{", "}", "\\", "%5C",
+            "\"", "<", ">", "`", "é", "%C3%A9", "%E9", "%c3", " ", "\t", "%09", "%0a", "%0D%0A", "..", "%2e", "%2E%2E"]
+SPECIAL_CFGS = [
+    ({"request_path": "/boot/...", "lookup_key": ":system_id:", "root_dir": "srv/root", "template": True,
+      "no_result": "not_found", "ds_error": "error"}, "dir"),
+    ({"request_path": "/cfg/...", "lookup_key": "net:mac", "file": "srv/root/a.txt", "template": True,
+      "no_result": "not_found", "ds_error": "error"}, "file"),
+    ({"request_path": "/c++/x-....cfg", "lookup_key": "net:mac", "root_dir": "srv/root", "template": False,
+      "no_result": "continue", "ds_error": "error"}, "dir"),
+    ({"request_path": "/p", "root_dir": "srv/root", "template": False}, "dir"),
+]
+
+
+def special_character_cases():
+    """every character (and escape) that some URL or pattern convention treats specially, once inside the value
+    that replaces the placeholder, once inside the remaining path, once as a look-alike of a fixed segment — for
+    fixed configurations and both protocols (deterministic: not a matter of the seed)"""
+    import urllib.parse
+    for cfg, mode in SPECIAL_CFGS:
+        for sp in SPECIALS:
+            for where in ("value", "extra", "fixed"):
+                raw = "a" + sp + "b"
+                if where == "value":
+                    if "lookup_key" not in cfg:
+                        continue
+                    base = substituted(cfg, raw)
+                    extra = "/a.txt" if mode == "dir" else ""
+                elif where == "extra":
+                    if mode != "dir":
+                        continue
+                    base = substituted(cfg, "abc")
+                    extra = "/" + raw + ".txt"
+                else:
+                    # the special character glued to a fixed segment of the configured path
+                    segs = substituted(cfg, "abc").split("/")
+                    segs[1] = segs[1] + sp
+                    base = "/".join(segs)
+                    extra = "/a.txt" if mode == "dir" else ""
+                decoded = urllib.parse.unquote(raw.split("?", 1)[0])
+                for proto in ("http", "tftp"):
+                    yield {"proto": proto, "cfg": dict(cfg), "tree": P.TREE_C06, "req": base + extra, "method": "GET",
+                           "client_ip": "192.0.2.1",
+                           "ds": {"find": {decoded: "sysA", "abc": "sysA"},
+                                  "data": {"sysA": {"tok": "T:sysA", "addrs": ["192.0.2.1"]},
+                                           decoded: {"tok": "T:" + decoded, "addrs": ["192.0.2.1"]},
+                                           "abc": {"tok": "T:abc", "addrs": ["192.0.2.1"]}},
+                                  "find_raises": False, "data_raises": False},
+                           "_meta": {"style": "special-" + where}}
+
+
 def gen_c06(rng, tier, mult=1):
     yield from gen_batches(rng, tier, which=("unquote", "utf8", "splitjoin"))
+    yield from special_character_cases()
     n = (1800 if tier == "quick" else 40000) * mult
     styles = ["valid", "mutated", "random", "mutated", "valid", "badcfg"]
     for i in range(n):
